@@ -47,4 +47,28 @@ CHECKS = {
                 "clear flag with different secrets.",
         "assumptions": COMMON_ASSUME + ["scripted net.Conn is a faithful connection; client side reached through the verif-tag SetClientConn hook"],
     },
+    "C05": {
+        "quick": 800, "thorough": 30000,
+        "rule": "rapid draws 1..12 packets (3 types, both minors, flags, sessions, body lengths 0..40 / bufio-size neighbours 94..108 / "
+                "4096 / 65535 / 65536), a segmentation of the concatenated stream (one chunk, one byte per read, cuts exactly on "
+                "header/body boundaries, inside the length field, random) and a terminal event (EOF at boundary / mid-header / "
+                "mid-body, stall then injected deadline expiry, header announcing 65537..2^32-1), delivered by a scripted net.Conn "
+                "that returns at most one chunk per Read; server side: a recording handler must receive exactly the written "
+                "headers+cleartexts in order, nothing for the partial packet, connection closed, oversize refused without parking "
+                "for more input and with <64KiB allocated; client side (verif hook): successive Client.Send calls return the "
+                "packets in order and an error for the remainder. Plus: 3 packets x every single cut position x both sides. "
+                "Non-trivial: >=2 packets with a cut strictly inside a packet, or a terminal event other than EOF at a boundary.",
+        "assumptions": COMMON_ASSUME + ["scripted net.Conn is a faithful connection (short reads, EOF, timeout errors as a TCP socket produces)"],
+    },
+    "C06": {
+        "quick": 1200, "thorough": 40000,
+        "rule": "rapid draws a request header (3 types, minor 0/1, any flag octet, any session id, odd first sequence number so that "
+                "the last request lands on 1,3,251,253,255 or uniform), a depth 1..6 of exchanges through a self-registering "
+                "continuation handler, and per step a reply body (AuthenReply incl. RESTART on the last step, AuthorReply, AcctReply, "
+                "arbitrary EncoderDecoder of 0..65536 bytes); oracle on the raw reply bytes: version/type/flag octets identical to "
+                "the request's, same session, seq+1 (1 for RESTART), length == body bytes, body == cleartext XOR model pad iff the "
+                "request's unencrypted bit is clear, zero packets and never seq 0 for request 255. Plus every flag octet x type and "
+                "every odd sequence number deterministically. Non-trivial: flags != 0, minor 1, depth >= 2, last seq >= 253, RESTART.",
+        "assumptions": COMMON_ASSUME + ["one reply per handler invocation (double replies are C07's concern)", "RESTART in answer to request 255 is not generated (statement ambiguous there)"],
+    },
 }
